@@ -276,9 +276,11 @@ func runCtrl(ctx *Ctx, in ctrlIn) ([]ctrlObs, string) {
 	default:
 		loop = control_loop.NewPidControlLoop(pF(in.P), pF(in.I), pF(in.D))
 	}
+	ctrlSibling = nil
 	if in.CfgAlg != "" {
 		loop = ctrlLoopFromConfig(dir, in, fan)
 	}
+	sibling, sibOut := ctrlSibling, 0
 	curve := &ctrlStubCurve{}
 	pm := map[int]int{}
 	for _, kv := range in.Pm {
@@ -432,6 +434,16 @@ func runCtrl(ctx *Ctx, in ctrlIn) ([]ctrlObs, string) {
 				curve.v, curve.err = 0, errors.New("curve evaluation failed")
 			}
 			util.VerifAdvance(time.Duration(ev.Dt))
+			if sibling != nil { // the other fan's control loop runs its own cycle (an unrelated target) in between
+				t := 255
+				if ev.Curve != nil {
+					t = 255 - *ev.Curve
+					if t < 0 {
+						t = 0
+					}
+				}
+				_ = catch(func() { sibOut = sibling.Cycle(t, sibOut) })
+			}
 			readFail, writeFail, modeFail = !ev.ReadOk, !ev.WriteOk, !ev.ModeOk
 			if in.Kind == "cmd" {
 				if readFail {
